@@ -7,13 +7,15 @@ static void mon_read_result(struct DataAccess *obj, _Bool ok) { (void)obj; (void
 enum { Z_OK = 0, Z_STREAM_END = 1, Z_NEED_DICT = 2, Z_ERRNO = -1, Z_STREAM_ERROR = -2, Z_DATA_ERROR = -3, Z_MEM_ERROR = -4, Z_BUF_ERROR = -5, Z_VERSION_ERROR = -6 };
 struct gzFILE { int id; };
 struct z_stream_model { unsigned int avail_in; const unsigned char *next_in; unsigned int avail_out; unsigned char *next_out; };
-static struct { unsigned long inflated, written, pending; _Bool stream_end_seen, last_was_stream_end; const unsigned char *outbuf; } GZ;
+static struct { unsigned long inflated, written, pending; _Bool stream_end_seen, last_was_stream_end, must_raise; size_t last_got; const unsigned char *outbuf; } GZ;
 static size_t gz_fread(void *p, size_t sz, size_t n, struct gzFILE *f)
 {
   size_t got = nondet_size_t();
   (void)p; (void)f;
   __CPROVER_assert(sz == 1 && n == 512, "model: fread(input_buffer, 1, 512, f)");
   __CPROVER_assume(got <= n);
+  __CPROVER_assert(!GZ.must_raise, "C10: after an error from inflate no further input is read (the error is raised)");
+  GZ.last_got = got;
   return got;
 }
 static int gz_ferror(struct gzFILE *f) { (void)f; return nondet_bool(); }
@@ -26,6 +28,7 @@ static int gz_inflate(struct z_stream_model *s)
   int rc = nondet_int();
   __CPROVER_assert(GZ.pending == 0, "C10: everything inflate produced before has been written out before the next call");
   __CPROVER_assert(s->avail_out == 1024, "model: a full output buffer is offered");
+  __CPROVER_assert(!GZ.must_raise, "C10: after an error from inflate it is not called again (the error is raised)");
   __CPROVER_assume(consumed <= s->avail_in && produced <= s->avail_out);
   __CPROVER_assume(rc == Z_OK || rc == Z_STREAM_END || rc == Z_NEED_DICT || rc == Z_DATA_ERROR || rc == Z_STREAM_ERROR || rc == Z_MEM_ERROR || rc == Z_BUF_ERROR);
   __CPROVER_assume(rc != Z_BUF_ERROR || (consumed == 0 && produced == 0));
@@ -35,6 +38,9 @@ static int gz_inflate(struct z_stream_model *s)
   GZ.pending = produced; GZ.inflated += produced;
   GZ.last_was_stream_end = (rc == Z_STREAM_END);
   if (rc == Z_STREAM_END) GZ.stream_end_seen = 1;
+  /* every code other than Z_OK / Z_STREAM_END is an error, except Z_BUF_ERROR while the last read still delivered
+     input (inflate just wants more): a corrupt, truncated or non-gzip stream must end in an exception */
+  GZ.must_raise = !(rc == Z_OK || rc == Z_STREAM_END || (rc == Z_BUF_ERROR && GZ.last_got > 0));
   return rc;
 }
 static size_t gz_fwrite(const void *p, size_t sz, size_t n, struct gzFILE *fout)
@@ -49,12 +55,12 @@ static size_t gz_fwrite(const void *p, size_t sz, size_t n, struct gzFILE *fout)
 }
 #define GZ_OUTER_CONTRACT \
   __CPROVER_assigns(zerr, stream, GZ, g_exc, g_exc_by_pointer, __CPROVER_object_whole(input_buffer), __CPROVER_object_whole(output_buffer)) \
-  __CPROVER_loop_invariant(g_exc == EXC_NONE && !g_exc_by_pointer && GZ.pending == 0 && GZ.written == GZ.inflated) \
+  __CPROVER_loop_invariant(g_exc == EXC_NONE && !g_exc_by_pointer && GZ.pending == 0 && GZ.written == GZ.inflated && !GZ.must_raise) \
   __CPROVER_loop_invariant((zerr == Z_STREAM_END) == GZ.stream_end_seen)
 #define GZ_INNER_CONTRACT \
   __CPROVER_assigns(zerr, stream.avail_in, stream.avail_out, stream.next_out, GZ, g_exc, g_exc_by_pointer, __CPROVER_object_whole(output_buffer)) \
-  __CPROVER_loop_invariant(g_exc == EXC_NONE && !g_exc_by_pointer && GZ.pending == 0 && GZ.written == GZ.inflated) \
-  __CPROVER_loop_invariant((zerr == Z_STREAM_END) == GZ.stream_end_seen && stream.avail_in <= 512)
+  __CPROVER_loop_invariant(g_exc == EXC_NONE && !g_exc_by_pointer && GZ.pending == 0 && GZ.written == GZ.inflated && !GZ.must_raise) \
+  __CPROVER_loop_invariant((zerr == Z_STREAM_END) == GZ.stream_end_seen && stream.avail_in <= 512 && GZ.last_got == got)
 #include "check_zlib_error_code.inc"
 #include "gz_inflate_loop.inc"
 
@@ -66,17 +72,17 @@ __CPROVER_ensures((zerr == Z_OK) == (g_exc == EXC_NONE))
 __CPROVER_ensures(!g_exc_by_pointer);
 
 static void gz_inflate_loop(struct gzFILE *f, struct gzFILE *fout)
-__CPROVER_requires(g_exc == EXC_NONE && !g_exc_by_pointer && GZ.inflated == 0 && GZ.written == 0 && GZ.pending == 0 && !GZ.stream_end_seen)
+__CPROVER_requires(g_exc == EXC_NONE && !g_exc_by_pointer && GZ.inflated == 0 && GZ.written == 0 && GZ.pending == 0 && !GZ.stream_end_seen && !GZ.must_raise)
 __CPROVER_assigns(GZ, g_exc, g_exc_by_pointer)
 /* normal return: the stream ended (Z_STREAM_END) and every inflated byte was written exactly once */
-__CPROVER_ensures(g_exc == EXC_NONE ==> (GZ.stream_end_seen && GZ.written == GZ.inflated && GZ.pending == 0))
+__CPROVER_ensures(g_exc == EXC_NONE ==> (GZ.stream_end_seen && !GZ.must_raise && GZ.written == GZ.inflated && GZ.pending == 0))
 __CPROVER_ensures(!g_exc_by_pointer);
 
 void h_check_zlib(void) { g_exc = EXC_NONE; g_exc_by_pointer = 0; check_zlib_error_code(nondet_int()); }
 void h_gz_loop(void)
 {
   static struct gzFILE a, b;
-  g_exc = EXC_NONE; g_exc_by_pointer = 0; GZ.inflated = 0; GZ.written = 0; GZ.pending = 0; GZ.stream_end_seen = 0;
+  g_exc = EXC_NONE; g_exc_by_pointer = 0; GZ.inflated = 0; GZ.written = 0; GZ.pending = 0; GZ.stream_end_seen = 0; GZ.must_raise = 0;
   gz_inflate_loop(&a, &b);
   VERIF_COVER(g_exc == EXC_NONE && GZ.inflated > 2048, "more than two buffers inflated");
   VERIF_COVER(g_exc != EXC_NONE, "rejected");
